@@ -15,7 +15,7 @@ TRUSTED = [
     'MakeHash::operator(), compareEqual/compareLessThan (overloads selected by clang for a comparable probe Storage and for EmptyAnyStorage) -> coq/gen/GenAnyId.v; '
     'integer digests read as Z (static_cast<size_t> of a non-negative digest is the identity)',
     'extraction: ExtrOcamlBasic only; OCaml 4.13.1; ocaml/driver_anyid.ml (the `law ... ok` lines are constants justified by the theorems)',
-    'tie B: harness/anyid.cpp (test Digester Dig3 with 3-bit range, variant-like Storage Val, EmptyAnyStorage; three EventDispatcher instantiations), '
+    'tie B: harness/anyid.cpp (test Digester Dig3 with eight values, in the wide variants scaled monotonically over the whole range of unsigned int / size_t, variant-like Storage Val, EmptyAnyStorage; three EventDispatcher instantiations), '
     'ASan+UBSan, the case generator and the direct oracle in tools/anyid_domain.py',
     'modelled not verified: std::map as a list kept sorted by operator< with lower_bound search; std::unordered_map as a bucket table with an arbitrary '
     'fixed bucket function (no rehash) searched with operator==; the stored values\' own == and < as pure total functions (value_order hypothesis); '
@@ -24,7 +24,11 @@ TRUSTED = [
 
 
 def build(ctx, tier):
-    specs = [dict(name='anyid_gxx17', src='anyid.cpp')]
+    # the wide variants spread the test digester's eight values over the whole range of the digest type (same order,
+    # same trace): digests further apart than half the range
+    specs = [dict(name='anyid_gxx17', src='anyid.cpp'), dict(name='anyid_gxx17_wide64', src='anyid.cpp', defs=['VH_WIDE=2'])]
+    if tier == 'thorough':
+        specs += [dict(name='anyid_clang14_wide32', src='anyid.cpp', compiler='clang++', std='c++14', defs=['VH_WIDE=1'])]
     if tier == 'thorough':
         specs += [dict(name='anyid_clang11', src='anyid.cpp', compiler='clang++', std='c++11'),
                   dict(name='anyid_gxx14_O2', src='anyid.cpp', std='c++14', opt='-O2')]
